@@ -195,3 +195,82 @@ def register(reg, prop="C01"):
             "self.state.data is stepper_result()[0] and self._current_H is stepper_result()[1]",
         ],
     ))
+
+    # ---- SVBackendImpl.__init__: the evolving state owns its storage -------------------------------
+    # krylov_exp normalises its input in place, so the tensor that becomes self.state.data must not be the
+    # tensor held by config.initial_state (the user's object, reused by the next trajectory / the next run).
+    # Model of storage identity: t.clone() is a new tensor; t.to(...) MAY return t itself (it does when dtype
+    # and device already match), so it is modelled as returning t; a state constructor stores what it is given
+    # (possibly through .to): `data is the argument`.
+    def tensor_id(name, fresh_from=None):
+        t = SymObj("Tensor", None)
+        t.fields["origin"] = name
+        t.fields["clone"] = lambda I2, *a, **k: tensor_id(name + ".clone()", fresh_from=t)
+        t.fields["to"] = lambda I2, *a, **k: t
+        t.fields["contiguous"] = lambda I2, *a, **k: t
+        return t
+
+    def state_ctor(kind):
+        def mk(I, cref, args, kwargs):
+            o = SymObj(kind, None)
+            o.fields["data"] = args[0] if args else kwargs.get("data", kwargs.get("vector"))
+            o.fields["kind"] = kind
+            return o
+        return mk
+
+    def state_make(kind):
+        def mk(I, *args, **kwargs):
+            o = SymObj(kind, None)
+            o.fields["data"] = tensor_id("make()")
+            o.fields["kind"] = kind
+            return o
+        return mk
+    own_policies = {
+        "emu_sv.state_vector:StateVector.make": state_make("StateVector"),
+        "emu_sv.density_matrix_state:DensityMatrix.make": state_make("DensityMatrix"),
+        f"{SVIMPL}:SVBackendImpl.init_dark_qubits": lambda I, *a, **k: None,
+    }
+
+    def setup_init(with_state, noisy):
+        def _setup(I, fr):
+            ctx = I.ctx
+            data = common.sequence_data(I, "data")
+            n_ops = data.fields["lindblad_ops"].length
+            ctx.assume(to_z3(n_ops) >= 1 if noisy else to_z3(n_ops) == 0)
+            cfg = SymObj("SVConfig", "emu_sv.sv_config")
+            opts = {"gpu": False, "krylov_tolerance": ctx.fresh("krylov_tolerance", "real")}
+            if with_state:
+                st = SymObj("DensityMatrix" if noisy else "StateVector",
+                            "emu_sv.density_matrix_state" if noisy else "emu_sv.state_vector")
+                st.fields["data"] = tensor_id("config.initial_state.data")
+                st.fields["n_qudits"] = data.fields["omega"].shape[1]
+                opts["initial_state"] = st
+            else:
+                opts["initial_state"] = None
+            cfg.fields["_backend_options"] = opts
+            o = SymObj("SVBackendImpl", SVIMPL)
+            fr.locals.update(self=o, config=cfg, data=data)
+        return _setup
+    G["is_new_storage"] = lambda I, a, b: a is not b
+    G["class_name"] = lambda I, c: getattr(c, "name", None) or str(c)
+    for with_state in (True, False):
+        for noisy in (False, True):
+            label = f"SVBackendImpl.__init__[{'initial state' if with_state else 'default state'},{'noisy' if noisy else 'noiseless'}]"
+            reg.class_policies["emu_sv.state_vector:StateVector"] = state_ctor("StateVector")
+            reg.class_policies["emu_sv.density_matrix_state:DensityMatrix"] = state_ctor("DensityMatrix")
+            reg.add_contract(Contract(
+                f"{SVIMPL}:SVBackendImpl.__init__", property=prop, label=label,
+                params={"self": lambda I, n: None, "config": lambda I, n: None, "data": lambda I, n: None},
+                setup=setup_init(with_state, noisy), policies=dict(own_policies),
+                # a configured initial state cannot be combined with state-preparation errors
+                raises=({"NotImplementedError": "data.state_prep_error > 0"} if with_state else {}),
+                ensures=[f"self.state.kind == {'DensityMatrix' if noisy else 'StateVector'!r}",
+                         f"class_name(self.stepper) == {'EvolveDensityMatrix' if noisy else 'EvolveStateVector'!r}"]
+                + (["is_new_storage(self.state.data, config.initial_state.data)"] if with_state else []),
+                ensures_names=["state-representation-matches-noise", "stepper-matches-noise"]
+                + (["evolving-state-does-not-share-storage-with-the-configured-initial-state"] if with_state else []),
+            ), callsite=False)
+
+
+INIT_LABELS = [f"SVBackendImpl.__init__[{a},{b}]" for a in ("initial state", "default state") for b in ("noiseless", "noisy")]
+
